@@ -66,8 +66,8 @@ def main():
             if not os.path.exists(demo):
                 demo = out + '/seed_demo.rs'
             meta = out + '/meta%s.json' % n
-            prop = ('C' + pid[1:]) if pid[0] in 'HKL' else pid
-            name = ('%s-%s%s' % (prop, pid[0].lower(), n)) if pid[0] in 'HKL' else '%s-%s' % (pid, n)
+            prop = ('C' + pid[1:]) if pid[0] in 'HKLM' else pid
+            name = ('%s-%s%s' % (prop, pid[0].lower(), n)) if pid[0] in 'HKLM' else '%s-%s' % (pid, n)
             print('=====', name)
             # 1. confirm
             wt_reset()
@@ -120,7 +120,7 @@ def main():
                     mj = json.load(open(meta))
                 except Exception:
                     pass
-                mj.update({'property': prop, 'round': {'H': 'hard', 'K': 'hard2', 'L': 'hard3'}.get(pid[0], 'first'), 'confirmed_by_me': 'scratch worktree /tmp/wt at /repo HEAD: demo passes without the patch (%s), fails with it (%s), no other test fails' % (mb.group(0), m.group(0) if m else '?'),
+                mj.update({'property': prop, 'round': {'H': 'hard', 'K': 'hard2', 'L': 'hard3', 'M': 'round6'}.get(pid[0], 'first'), 'confirmed_by_me': 'scratch worktree /tmp/wt at /repo HEAD: demo passes without the patch (%s), fails with it (%s), no other test fails' % (mb.group(0), m.group(0) if m else '?'),
                            'checks_fired': fired, 'checks_broken': broken, 'fired_instances': details})
                 json.dump(mj, open(d + '/meta.json', 'w'), indent=1)
     wt_reset()
